@@ -103,6 +103,9 @@ Msgs(c) ==
   (IF "sans" \in Alpha     \* answers (also late and repeated ones) to the requests the node sent on this connection
      THEN {Mk("APP", 272, FALSE, S.snd[j].hbh, S.snd[j].e2e, AppCfg[S.snd[j].a].id, h, "", 2001, FALSE, TRUE, FALSE, <<>>, <<>>, FALSE)
              : j \in {x \in 1..Len(S.snd) : S.snd[x].c = c}, h \in sp} ELSE {}) \cup
+  (IF "sdwa" \in Alpha    \* unsolicited watchdog answers bearing the identifiers of the requests the node sent on this connection
+     THEN {Mk("DW", 280, FALSE, S.snd[j].hbh, S.snd[j].e2e, 0, h, "", 2001, FALSE, TRUE, FALSE, <<>>, <<>>, FALSE)
+             : j \in {x \in 1..Len(S.snd) : S.snd[x].c = c}, h \in sp} ELSE {}) \cup
   (IF "ureq" \in Alpha THEN {Mk("APP", 9999, TRUE, 2, 1, RegApp, h, NodeCfg.realm, 0, FALSE, FALSE, FALSE, <<>>, <<>>, FALSE) : h \in sp} ELSE {})
 
 Usable(c) == S.conn[c].used /\ S.conn[c].sock = "open" /\ ~S.conn[c].connecting /\ S.conn[c].st # "CONNECTING"
